@@ -113,6 +113,12 @@ structure Inv (s : Sys) : Prop where
   /-- every live representation is owned by exactly somebody: a guest handle or the host -/
   no_orphan : ∀ rep, s.heap.has rep = true → (∃ h, s.table.get h = some (.own (.exp rep))) ∨ s.hostOwned.has rep = true
   scope_open : ∀ h r k, s.table.get h = some (.borrow r k) → s.scopes.has k = true
+  /-- a payload in a slot knows it, and the slot's representation is alive -/
+  slot_loc : ∀ rep pid, s.slot.get rep = some pid → s.loc.get pid = some (.inSlot rep) ∧ s.heap.has rep = true
+  loc_slot : ∀ pid rep, s.loc.get pid = some (.inSlot rep) → s.slot.get rep = some pid
+  /-- the drop log lists exactly the dead payloads, each once -/
+  log_dead : ∀ pid, pid ∈ s.dropLog ↔ s.loc.get pid = some .dead
+  log_nodup : s.dropLog.Nodup
 
 theorem inv_init : Inv {} := by
   constructor <;> intros <;> simp_all [Map.Wf_nil, Map.get, NSet.has]
@@ -165,316 +171,490 @@ theorem hasTempOf_of_hasBorrowOf (s : Sys) (hi : Inv s) (k : Nat) (hb : hasBorro
       | false => exact absurd this (get_of_hasTempOf_false s.cells k' ht x cell hcell)
 
 macro "inv_close" : tactic =>
-  `(tactic| (simp only [Map.get_put, Map.get_del, NSet.has_put, NSet.has_del, Map.get_nil] <;> grind [Res.isExp]))
+  `(tactic| (simp only [Map.get_put, Map.get_del, NSet.has_put, NSet.has_del, Map.get_nil, List.mem_cons, List.nodup_cons] <;> grind [Res.isExp]))
 
-/-- **Preservation.** Every event the model can perform keeps the invariant. -/
-theorem step_inv (s s' : Sys) (ev : Ev) (hi : Inv s) (hs : s.step ev = .ok s') : Inv s' := by
-  obtain ⟨twf, cwf, ce, co, cb, ec, el, ol, un, no, so⟩ := hi
-  cases ev with
-  | ownPlus h r =>
-      simp only [Sys.step] at hs
-      split at hs
-      · cases hs
-      rename_i hfree
-      simp only [Bool.or_eq_true, not_or, Bool.not_eq_true, Option.isSome_eq_false_iff, Option.isNone_iff_eq_none] at hfree
-      obtain ⟨ht, hc⟩ := hfree
-      cases r with
-      | imp o =>
-          simp only [Outcome.ok.injEq] at hs
-          subst hs
-          refine ⟨Map.Wf_put _ _ _ twf, Map.Wf_put _ _ _ cwf, ?_, ?_, ?_, ?_, ?_, ?_, ?_, ?_, ?_⟩ <;> inv_close
-      | exp rep =>
-          simp only at hs
-          split at hs
-          · cases hs
-          rename_i hown
-          simp only [Outcome.ok.injEq] at hs
-          subst hs
-          refine ⟨Map.Wf_put _ _ _ twf, Map.Wf_put _ _ _ cwf, ?_, ?_, ?_, ?_, ?_, ?_, ?_, ?_, ?_⟩ <;> inv_close
-  | borPlus h r k =>
-      simp only [Sys.step] at hs
-      split at hs
-      · cases hs
-      rename_i hfree
-      simp only [Bool.or_eq_true, not_or, Bool.not_eq_true, Option.isSome_eq_false_iff, Option.isNone_iff_eq_none] at hfree
-      obtain ⟨ht, hc⟩ := hfree
-      split at hs
-      · cases hs
-      split at hs
-      · cases hs
-      rename_i hexp hscope
+theorem step_inv_ownPlus (s s' : Sys) (h : _) (r : _) (hi : Inv s) (hs : s.step (.ownPlus h r) = .ok s') : Inv s' := by
+  obtain ⟨twf, cwf, ce, co, cb, ec, el, ol, un, no, so, sl, ls, ld, ln⟩ := hi
+  simp only [Sys.step] at hs
+  split at hs
+  · cases hs
+  rename_i hfree
+  simp only [Bool.or_eq_true, not_or, Bool.not_eq_true, Option.isSome_eq_false_iff, Option.isNone_iff_eq_none] at hfree
+  obtain ⟨ht, hc⟩ := hfree
+  cases r with
+  | imp o =>
       simp only [Outcome.ok.injEq] at hs
       subst hs
-      refine ⟨Map.Wf_put _ _ _ twf, Map.Wf_put _ _ _ cwf, ?_, ?_, ?_, ?_, ?_, ?_, ?_, ?_, ?_⟩ <;> inv_close
-  | callBegin k =>
-      simp only [Sys.step] at hs
+      refine ⟨Map.Wf_put _ _ _ twf, Map.Wf_put _ _ _ cwf, ?_, ?_, ?_, ?_, ?_, ?_, ?_, ?_, ?_, ?_, ?_, ?_, ?_⟩ <;> inv_close
+  | exp rep =>
+      simp only at hs
       split at hs
       · cases hs
+      rename_i hown
       simp only [Outcome.ok.injEq] at hs
       subst hs
-      refine ⟨twf, cwf, ?_, ?_, ?_, ?_, ?_, ?_, ?_, ?_, ?_⟩ <;> inv_close
-  | callEnd k =>
-      simp only [Sys.step] at hs
-      split at hs
-      · cases hs
-      split at hs
-      · cases hs
-      split at hs
-      · cases hs
-      rename_i _ _ hb
+      refine ⟨Map.Wf_put _ _ _ twf, Map.Wf_put _ _ _ cwf, ?_, ?_, ?_, ?_, ?_, ?_, ?_, ?_, ?_, ?_, ?_, ?_, ?_⟩ <;> inv_close
+
+theorem step_inv_borPlus (s s' : Sys) (h : _) (r : _) (k : _) (hi : Inv s) (hs : s.step (.borPlus h r k) = .ok s') : Inv s' := by
+  obtain ⟨twf, cwf, ce, co, cb, ec, el, ol, un, no, so, sl, ls, ld, ln⟩ := hi
+  simp only [Sys.step] at hs
+  split at hs
+  · cases hs
+  rename_i hfree
+  simp only [Bool.or_eq_true, not_or, Bool.not_eq_true, Option.isSome_eq_false_iff, Option.isNone_iff_eq_none] at hfree
+  obtain ⟨ht, hc⟩ := hfree
+  split at hs
+  · cases hs
+  split at hs
+  · cases hs
+  rename_i hexp hscope
+  simp only [Outcome.ok.injEq] at hs
+  subst hs
+  refine ⟨Map.Wf_put _ _ _ twf, Map.Wf_put _ _ _ cwf, ?_, ?_, ?_, ?_, ?_, ?_, ?_, ?_, ?_, ?_, ?_, ?_, ?_⟩ <;> inv_close
+
+theorem step_inv_callBegin (s s' : Sys) (k : _) (hi : Inv s) (hs : s.step (.callBegin k) = .ok s') : Inv s' := by
+  obtain ⟨twf, cwf, ce, co, cb, ec, el, ol, un, no, so, sl, ls, ld, ln⟩ := hi
+  simp only [Sys.step] at hs
+  split at hs
+  · cases hs
+  simp only [Outcome.ok.injEq] at hs
+  subst hs
+  refine ⟨twf, cwf, ?_, ?_, ?_, ?_, ?_, ?_, ?_, ?_, ?_, ?_, ?_, ?_, ?_⟩ <;> inv_close
+
+theorem step_inv_callEnd (s s' : Sys) (k : _) (hi : Inv s) (hs : s.step (.callEnd k) = .ok s') : Inv s' := by
+  obtain ⟨twf, cwf, ce, co, cb, ec, el, ol, un, no, so, sl, ls, ld, ln⟩ := hi
+  simp only [Sys.step] at hs
+  split at hs
+  · cases hs
+  split at hs
+  · cases hs
+  split at hs
+  · cases hs
+  rename_i _ _ hb
+  simp only [Outcome.ok.injEq] at hs
+  subst hs
+  have hnb := fun x r => get_of_hasBorrowOf_false s.table k (by simpa using hb) x r
+  refine ⟨twf, cwf, ?_, ?_, ?_, ?_, ?_, ?_, ?_, ?_, ?_, ?_, ?_, ?_, ?_⟩ <;> inv_close
+
+theorem step_inv_ownMinus (s s' : Sys) (h : _) (hi : Inv s) (hs : s.step (.ownMinus h) = .ok s') : Inv s' := by
+  obtain ⟨twf, cwf, ce, co, cb, ec, el, ol, un, no, so, sl, ls, ld, ln⟩ := hi
+  simp only [Sys.step] at hs
+  split at hs
+  · rename_i hcell
+    split at hs
+    · rename_i rep htab
       simp only [Outcome.ok.injEq] at hs
       subst hs
-      have hnb := fun x r => get_of_hasBorrowOf_false s.table k (by simpa using hb) x r
-      refine ⟨twf, cwf, ?_, ?_, ?_, ?_, ?_, ?_, ?_, ?_, ?_⟩ <;> inv_close
-  | ownMinus h =>
-      simp only [Sys.step] at hs
-      split at hs
-      · rename_i hcell
-        split at hs
-        · rename_i rep htab
-          simp only [Outcome.ok.injEq] at hs
-          subst hs
-          refine ⟨Map.Wf_del _ _ twf, Map.Wf_del _ _ cwf, ?_, ?_, ?_, ?_, ?_, ?_, ?_, ?_, ?_⟩ <;> inv_close
-        · rename_i o htab
-          simp only [Outcome.ok.injEq] at hs
-          subst hs
-          refine ⟨Map.Wf_del _ _ twf, Map.Wf_del _ _ cwf, ?_, ?_, ?_, ?_, ?_, ?_, ?_, ?_, ?_⟩ <;> inv_close
-        · cases hs
+      refine ⟨Map.Wf_del _ _ twf, Map.Wf_del _ _ cwf, ?_, ?_, ?_, ?_, ?_, ?_, ?_, ?_, ?_, ?_, ?_, ?_, ?_⟩ <;> inv_close
+    · rename_i o htab
+      simp only [Outcome.ok.injEq] at hs
+      subst hs
+      refine ⟨Map.Wf_del _ _ twf, Map.Wf_del _ _ cwf, ?_, ?_, ?_, ?_, ?_, ?_, ?_, ?_, ?_, ?_, ?_, ?_, ?_⟩ <;> inv_close
+    · cases hs
+  · cases hs
+
+theorem step_inv_lend (s s' : Sys) (h : _) (hi : Inv s) (hs : s.step (.lend h) = .ok s') : Inv s' := by
+  obtain ⟨twf, cwf, ce, co, cb, ec, el, ol, un, no, so, sl, ls, ld, ln⟩ := hi
+  simp only [Sys.step] at hs
+  split at hs
+  · split at hs
+    · simp only [Outcome.ok.injEq] at hs
+      subst hs
+      exact ⟨twf, cwf, ce, co, cb, ec, el, ol, un, no, so, sl, ls, ld, ln⟩
+    · cases hs
+  · cases hs
+
+theorem step_inv_mk (s s' : Sys) (pid : _) (hi : Inv s) (hs : s.step (.mk pid) = .ok s') : Inv s' := by
+  obtain ⟨twf, cwf, ce, co, cb, ec, el, ol, un, no, so, sl, ls, ld, ln⟩ := hi
+  simp only [Sys.step] at hs
+  split at hs
+  · cases hs
+  rename_i hfree
+  simp only [Bool.not_eq_true, Option.isSome_eq_false_iff, Option.isNone_iff_eq_none] at hfree
+  simp only [Outcome.ok.injEq] at hs
+  subst hs
+  refine ⟨twf, cwf, ?_, ?_, ?_, ?_, ?_, ?_, ?_, ?_, ?_, ?_, ?_, ?_, ?_⟩ <;> inv_close
+
+theorem step_inv_new (s s' : Sys) (h : _) (rep : _) (pid : _) (hi : Inv s) (hs : s.step (.new h rep pid) = .ok s') : Inv s' := by
+  obtain ⟨twf, cwf, ce, co, cb, ec, el, ol, un, no, so, sl, ls, ld, ln⟩ := hi
+  simp only [Sys.step] at hs
+  split at hs
+  · cases hs
+  rename_i hfree
+  simp only [Bool.or_eq_true, not_or, Bool.not_eq_true, Option.isSome_eq_false_iff, Option.isNone_iff_eq_none] at hfree
+  obtain ⟨ht, hc⟩ := hfree
+  split at hs
+  · cases hs
+  rename_i hheap
+  split at hs
+  · cases hs
+  rename_i hheld
+  simp only [ne_eq, Decidable.not_not] at hheld
+  simp only [Outcome.ok.injEq] at hs
+  subst hs
+  refine ⟨Map.Wf_put _ _ _ twf, Map.Wf_put _ _ _ cwf, ?_, ?_, ?_, ?_, ?_, ?_, ?_, ?_, ?_, ?_, ?_, ?_, ?_⟩ <;> inv_close
+
+theorem step_inv_take (s s' : Sys) (h : _) (pid : _) (hi : Inv s) (hs : s.step (.take h pid) = .ok s') : Inv s' := by
+  obtain ⟨twf, cwf, ce, co, cb, ec, el, ol, un, no, so, sl, ls, ld, ln⟩ := hi
+  simp only [Sys.step] at hs
+  split at hs
+  · rename_i rep hcell htab
+    split at hs
+    · rename_i hslot
+      simp only [Outcome.ok.injEq] at hs
+      subst hs
+      refine ⟨twf, cwf, ?_, ?_, ?_, ?_, ?_, ?_, ?_, ?_, ?_, ?_, ?_, ?_, ?_⟩ <;> inv_close
+    · cases hs
+  · cases hs
+
+theorem step_inv_udrop (s s' : Sys) (pid : _) (hi : Inv s) (hs : s.step (.udrop pid) = .ok s') : Inv s' := by
+  obtain ⟨twf, cwf, ce, co, cb, ec, el, ol, un, no, so, sl, ls, ld, ln⟩ := hi
+  simp only [Sys.step] at hs
+  split at hs
+  · rename_i hheld
+    simp only [Outcome.ok.injEq] at hs
+    subst hs
+    refine ⟨twf, cwf, ?_, ?_, ?_, ?_, ?_, ?_, ?_, ?_, ?_, ?_, ?_, ?_, ?_⟩ <;> inv_close
+  · cases hs
+
+theorem step_inv_rep (s s' : Sys) (h : _) (rep : _) (hi : Inv s) (hs : s.step (.rep h rep) = .ok s') : Inv s' := by
+  obtain ⟨twf, cwf, ce, co, cb, ec, el, ol, un, no, so, sl, ls, ld, ln⟩ := hi
+  simp only [Sys.step] at hs
+  split at hs
+  · split at hs
+    · split at hs
       · cases hs
-  | lend h =>
-      simp only [Sys.step] at hs
-      split at hs
       · split at hs
         · simp only [Outcome.ok.injEq] at hs
           subst hs
-          exact ⟨twf, cwf, ce, co, cb, ec, el, ol, un, no, so⟩
+          exact ⟨twf, cwf, ce, co, cb, ec, el, ol, un, no, so, sl, ls, ld, ln⟩
         · cases hs
-      · cases hs
-  | new h rep =>
-      simp only [Sys.step] at hs
-      split at hs
-      · cases hs
-      rename_i hfree
-      simp only [Bool.or_eq_true, not_or, Bool.not_eq_true, Option.isSome_eq_false_iff, Option.isNone_iff_eq_none] at hfree
-      obtain ⟨ht, hc⟩ := hfree
+    · cases hs
+  · cases hs
+
+theorem step_inv_drop (s s' : Sys) (h : _) (dropped : _) (hi : Inv s) (hs : s.step (.drop h dropped) = .ok s') : Inv s' := by
+  obtain ⟨twf, cwf, ce, co, cb, ec, el, ol, un, no, so, sl, ls, ld, ln⟩ := hi
+  simp only [Sys.step] at hs
+  split at hs
+  · rename_i c hcell
+    split at hs
+    · rename_i rep htab
       split at hs
       · cases hs
       rename_i hheap
+      split at hs
+      · cases hs
+      rename_i hslot
+      simp only [ne_eq, Decidable.not_not] at hslot
+      simp only [Bool.not_eq_true, Bool.not_eq_false] at hheap
+      cases dropped with
+      | some pid =>
+        simp only [Outcome.ok.injEq] at hs
+        subst hs
+        refine ⟨Map.Wf_del _ _ twf, Map.Wf_del _ _ cwf, ?_, ?_, ?_, ?_, ?_, ?_, ?_, ?_, ?_, ?_, ?_, ?_, ?_⟩ <;> inv_close
+      | none =>
+        simp only [Outcome.ok.injEq] at hs
+        subst hs
+        refine ⟨Map.Wf_del _ _ twf, Map.Wf_del _ _ cwf, ?_, ?_, ?_, ?_, ?_, ?_, ?_, ?_, ?_, ?_, ?_, ?_, ?_⟩ <;> inv_close
+    · rename_i e htab hne
       simp only [Outcome.ok.injEq] at hs
       subst hs
-      refine ⟨Map.Wf_put _ _ _ twf, Map.Wf_put _ _ _ cwf, ?_, ?_, ?_, ?_, ?_, ?_, ?_, ?_, ?_⟩ <;> inv_close
-  | rep h rep =>
-      simp only [Sys.step] at hs
-      split at hs
-      · split at hs
-        · split at hs
-          · cases hs
-          · split at hs
-            · simp only [Outcome.ok.injEq] at hs
-              subst hs
-              exact ⟨twf, cwf, ce, co, cb, ec, el, ol, un, no, so⟩
-            · cases hs
-        · cases hs
-      · cases hs
-  | drop h =>
-      simp only [Sys.step] at hs
-      split at hs
-      · rename_i c hcell
-        split at hs
-        · rename_i rep htab
-          split at hs
-          · simp only [Outcome.ok.injEq] at hs
-            subst hs
-            refine ⟨Map.Wf_del _ _ twf, Map.Wf_del _ _ cwf, ?_, ?_, ?_, ?_, ?_, ?_, ?_, ?_, ?_⟩ <;> inv_close
-          · cases hs
-        · rename_i e htab hne
-          simp only [Outcome.ok.injEq] at hs
-          subst hs
-          refine ⟨Map.Wf_del _ _ twf, Map.Wf_del _ _ cwf, ?_, ?_, ?_, ?_, ?_, ?_, ?_, ?_, ?_⟩ <;> inv_close
-        · cases hs
-      · cases hs
-  | hostDrop rep =>
-      simp only [Sys.step] at hs
-      split at hs
-      · cases hs
-      split at hs
-      · simp only [Outcome.ok.injEq] at hs
-        subst hs
-        refine ⟨twf, cwf, ?_, ?_, ?_, ?_, ?_, ?_, ?_, ?_, ?_⟩ <;> inv_close
-      · cases hs
-  | use rep =>
-      simp only [Sys.step] at hs
-      split at hs
-      · cases hs
-      split at hs
-      · simp only [Outcome.ok.injEq] at hs
-        subst hs
-        exact ⟨twf, cwf, ce, co, cb, ec, el, ol, un, no, so⟩
-      · cases hs
-  | done =>
-      simp only [Sys.step] at hs
-      repeat (split at hs; · cases hs)
-      simp only [Outcome.ok.injEq] at hs
-      subst hs
-      exact ⟨twf, cwf, ce, co, cb, ec, el, ol, un, no, so⟩
+      refine ⟨Map.Wf_del _ _ twf, Map.Wf_del _ _ cwf, ?_, ?_, ?_, ?_, ?_, ?_, ?_, ?_, ?_, ?_, ?_, ?_, ?_⟩ <;> inv_close
+    · cases hs
+  · cases hs
+
+theorem step_inv_hostDrop (s s' : Sys) (rep : _) (dropped : _) (hi : Inv s) (hs : s.step (.hostDrop rep dropped) = .ok s') : Inv s' := by
+  obtain ⟨twf, cwf, ce, co, cb, ec, el, ol, un, no, so, sl, ls, ld, ln⟩ := hi
+  simp only [Sys.step] at hs
+  split at hs
+  · cases hs
+  rename_i ho
+  split at hs
+  · cases hs
+  rename_i hheap
+  split at hs
+  · cases hs
+  rename_i hslot
+  simp only [ne_eq, Decidable.not_not] at hslot
+  simp only [Bool.not_eq_true, Bool.not_eq_false] at hheap ho
+  cases dropped with
+  | some pid =>
+    simp only [Outcome.ok.injEq] at hs
+    subst hs
+    refine ⟨twf, cwf, ?_, ?_, ?_, ?_, ?_, ?_, ?_, ?_, ?_, ?_, ?_, ?_, ?_⟩ <;> inv_close
+  | none =>
+    simp only [Outcome.ok.injEq] at hs
+    subst hs
+    refine ⟨twf, cwf, ?_, ?_, ?_, ?_, ?_, ?_, ?_, ?_, ?_, ?_, ?_, ?_, ?_⟩ <;> inv_close
+
+theorem step_inv_use (s s' : Sys) (rep : _) (hi : Inv s) (hs : s.step (.use rep) = .ok s') : Inv s' := by
+  obtain ⟨twf, cwf, ce, co, cb, ec, el, ol, un, no, so, sl, ls, ld, ln⟩ := hi
+  simp only [Sys.step] at hs
+  split at hs
+  · cases hs
+  split at hs
+  · simp only [Outcome.ok.injEq] at hs
+    subst hs
+    exact ⟨twf, cwf, ce, co, cb, ec, el, ol, un, no, so, sl, ls, ld, ln⟩
+  · cases hs
+
+theorem step_inv_done (s s' : Sys) (hi : Inv s) (hs : s.step (.done) = .ok s') : Inv s' := by
+  obtain ⟨twf, cwf, ce, co, cb, ec, el, ol, un, no, so, sl, ls, ld, ln⟩ := hi
+  simp only [Sys.step] at hs
+  repeat (split at hs; · cases hs)
+  simp only [Outcome.ok.injEq] at hs
+  subst hs
+  exact ⟨twf, cwf, ce, co, cb, ec, el, ol, un, no, so, sl, ls, ld, ln⟩
+
+/-- **Preservation.** Every event the model can perform keeps the invariant. -/
+theorem step_inv (s s' : Sys) (ev : Ev) (hi : Inv s) (hs : s.step ev = .ok s') : Inv s' := by
+  cases ev with
+  | ownPlus h r => exact step_inv_ownPlus s s' h r hi hs
+  | borPlus h r k => exact step_inv_borPlus s s' h r k hi hs
+  | callBegin k => exact step_inv_callBegin s s' k hi hs
+  | callEnd k => exact step_inv_callEnd s s' k hi hs
+  | ownMinus h => exact step_inv_ownMinus s s' h hi hs
+  | lend h => exact step_inv_lend s s' h hi hs
+  | mk pid => exact step_inv_mk s s' pid hi hs
+  | new h rep pid => exact step_inv_new s s' h rep pid hi hs
+  | take h pid => exact step_inv_take s s' h pid hi hs
+  | udrop pid => exact step_inv_udrop s s' pid hi hs
+  | rep h rep => exact step_inv_rep s s' h rep hi hs
+  | drop h dropped => exact step_inv_drop s s' h dropped hi hs
+  | hostDrop rep dropped => exact step_inv_hostDrop s s' rep dropped hi hs
+  | use rep => exact step_inv_use s s' rep hi hs
+  | done => exact step_inv_done s s' hi hs
 
 end Witverif.Abi.Resource
 
 namespace Witverif.Abi.Resource
 
+theorem step_no_trap_ownPlus (s : Sys) (h : _) (r : _) (hi : Inv s) (w : String) : s.step (.ownPlus h r) ≠ .trap w := by
+  intro hs
+  obtain ⟨twf, cwf, ce, co, cb, ec, el, ol, un, no, so, sl, ls, ld, ln⟩ := hi
+  simp only [Sys.step] at hs
+  split at hs
+  · cases hs
+  cases r <;> simp only at hs
+  · cases hs
+  · split at hs <;> cases hs
+
+theorem step_no_trap_borPlus (s : Sys) (h : _) (r : _) (k : _) (hi : Inv s) (w : String) : s.step (.borPlus h r k) ≠ .trap w := by
+  intro hs
+  obtain ⟨twf, cwf, ce, co, cb, ec, el, ol, un, no, so, sl, ls, ld, ln⟩ := hi
+  simp only [Sys.step] at hs
+  repeat (split at hs; · cases hs)
+  cases hs
+
+theorem step_no_trap_callBegin (s : Sys) (k : _) (hi : Inv s) (w : String) : s.step (.callBegin k) ≠ .trap w := by
+  intro hs
+  obtain ⟨twf, cwf, ce, co, cb, ec, el, ol, un, no, so, sl, ls, ld, ln⟩ := hi
+  simp only [Sys.step] at hs
+  split at hs <;> cases hs
+
+theorem step_no_trap_callEnd (s : Sys) (k : _) (hi : Inv s) (w : String) : s.step (.callEnd k) ≠ .trap w := by
+  intro hs
+  obtain ⟨twf, cwf, ce, co, cb, ec, el, ol, un, no, so, sl, ls, ld, ln⟩ := hi
+  simp only [Sys.step] at hs
+  split at hs
+  · cases hs
+  split at hs
+  · cases hs
+  rename_i _ hnt
+  split at hs
+  · rename_i hb
+    have := hasTempOf_of_hasBorrowOf s ⟨twf, cwf, ce, co, cb, ec, el, ol, un, no, so, sl, ls, ld, ln⟩ k hb
+    simp [this] at hnt
+  · cases hs
+
+theorem step_no_trap_ownMinus (s : Sys) (h : _) (hi : Inv s) (w : String) : s.step (.ownMinus h) ≠ .trap w := by
+  intro hs
+  obtain ⟨twf, cwf, ce, co, cb, ec, el, ol, un, no, so, sl, ls, ld, ln⟩ := hi
+  simp only [Sys.step] at hs
+  split at hs
+  · rename_i ex hcell
+    split at hs
+    · cases hs
+    · cases hs
+    · rename_i hne1 hne2
+      have h1 := ce h _ hcell
+      obtain ⟨e, he⟩ := Option.isSome_iff_exists.mp h1
+      cases e with
+      | own r =>
+          cases r with
+          | imp o => exact hne2 o he
+          | exp rep => exact hne1 rep he
+      | borrow r k =>
+          have := (cb h _ r k hcell he).1
+          simp at this
+  · cases hs
+
+theorem step_no_trap_lend (s : Sys) (h : _) (hi : Inv s) (w : String) : s.step (.lend h) ≠ .trap w := by
+  intro hs
+  obtain ⟨twf, cwf, ce, co, cb, ec, el, ol, un, no, so, sl, ls, ld, ln⟩ := hi
+  simp only [Sys.step] at hs
+  split at hs
+  · rename_i c hcell
+    split at hs
+    · cases hs
+    · rename_i hn
+      simp [ce h c hcell] at hn
+  · cases hs
+
+theorem step_no_trap_mk (s : Sys) (pid : _) (hi : Inv s) (w : String) : s.step (.mk pid) ≠ .trap w := by
+  intro hs
+  obtain ⟨twf, cwf, ce, co, cb, ec, el, ol, un, no, so, sl, ls, ld, ln⟩ := hi
+  simp only [Sys.step] at hs
+  split at hs <;> cases hs
+
+theorem step_no_trap_new (s : Sys) (h : _) (rep : _) (pid : _) (hi : Inv s) (w : String) : s.step (.new h rep pid) ≠ .trap w := by
+  intro hs
+  obtain ⟨twf, cwf, ce, co, cb, ec, el, ol, un, no, so, sl, ls, ld, ln⟩ := hi
+  simp only [Sys.step] at hs
+  repeat (split at hs; · cases hs)
+  cases hs
+
+theorem step_no_trap_take (s : Sys) (h : _) (pid : _) (hi : Inv s) (w : String) : s.step (.take h pid) ≠ .trap w := by
+  intro hs
+  obtain ⟨twf, cwf, ce, co, cb, ec, el, ol, un, no, so, sl, ls, ld, ln⟩ := hi
+  simp only [Sys.step] at hs
+  split at hs
+  · split at hs <;> cases hs
+  · cases hs
+
+theorem step_no_trap_udrop (s : Sys) (pid : _) (hi : Inv s) (w : String) : s.step (.udrop pid) ≠ .trap w := by
+  intro hs
+  obtain ⟨twf, cwf, ce, co, cb, ec, el, ol, un, no, so, sl, ls, ld, ln⟩ := hi
+  simp only [Sys.step] at hs
+  split at hs <;> cases hs
+
+theorem step_no_trap_rep (s : Sys) (h : _) (rep : _) (hi : Inv s) (w : String) : s.step (.rep h rep) ≠ .trap w := by
+  intro hs
+  obtain ⟨twf, cwf, ce, co, cb, ec, el, ol, un, no, so, sl, ls, ld, ln⟩ := hi
+  simp only [Sys.step] at hs
+  split at hs
+  · rename_i hcell
+    split at hs
+    · rename_i r htab
+      split at hs
+      · cases hs
+      · rename_i hr
+        split at hs
+        · cases hs
+        · rename_i hh
+          have : r = rep := by simpa using hr
+          subst this
+          simp [el h r htab] at hh
+    · rename_i hne
+      have h1 := ce h _ hcell
+      obtain ⟨e, he⟩ := Option.isSome_iff_exists.mp h1
+      cases e with
+      | own r =>
+          cases r with
+          | imp o =>
+              have := (co h _ _ hcell he).2
+              simp [Res.isExp] at this
+          | exp rep' => exact hne rep' he
+      | borrow r k =>
+          have := (cb h _ r k hcell he).1
+          simp at this
+  · cases hs
+
+theorem step_no_trap_drop (s : Sys) (h : _) (dropped : _) (hi : Inv s) (w : String) : s.step (.drop h dropped) ≠ .trap w := by
+  intro hs
+  obtain ⟨twf, cwf, ce, co, cb, ec, el, ol, un, no, so, sl, ls, ld, ln⟩ := hi
+  simp only [Sys.step] at hs
+  split at hs
+  · rename_i c hcell
+    split at hs
+    · rename_i rep htab
+      split at hs
+      · rename_i hh
+        simp [el h rep htab] at hh
+      · split at hs
+        · cases hs
+        · cases dropped <;> cases hs
+    · cases hs
+    · rename_i hn
+      have h1 := ce h c hcell
+      simp [hn] at h1
+  · cases hs
+
+theorem step_no_trap_hostDrop (s : Sys) (rep : _) (dropped : _) (hi : Inv s) (w : String) : s.step (.hostDrop rep dropped) ≠ .trap w := by
+  intro hs
+  obtain ⟨twf, cwf, ce, co, cb, ec, el, ol, un, no, so, sl, ls, ld, ln⟩ := hi
+  simp only [Sys.step] at hs
+  split at hs
+  · cases hs
+  rename_i ho
+  split at hs
+  · rename_i hh
+    have := (ol rep (by simpa using ho)).1
+    simp [this] at hh
+  · split at hs
+    · cases hs
+    · cases dropped <;> cases hs
+
+theorem step_no_trap_use (s : Sys) (rep : _) (hi : Inv s) (w : String) : s.step (.use rep) ≠ .trap w := by
+  intro hs
+  obtain ⟨twf, cwf, ce, co, cb, ec, el, ol, un, no, so, sl, ls, ld, ln⟩ := hi
+  simp only [Sys.step] at hs
+  split at hs
+  · cases hs
+  rename_i ho
+  split at hs
+  · cases hs
+  · rename_i hh
+    have := (ol rep (by simpa using ho)).1
+    simp [this] at hh
+
+theorem step_no_trap_done (s : Sys) (hi : Inv s) (w : String) : s.step (.done) ≠ .trap w := by
+  intro hs
+  obtain ⟨twf, cwf, ce, co, cb, ec, el, ol, un, no, so, sl, ls, ld, ln⟩ := hi
+  simp only [Sys.step] at hs
+  split at hs
+  · cases hs
+  rename_i hc
+  split at hs
+  · cases hs
+  rename_i hho
+  split at hs
+  · cases hs
+  split at hs
+  · rename_i ht
+    obtain ⟨k, v, hk⟩ := Map.exists_get_of_not_isEmpty s.table (by simpa using ht)
+    have := ec k v hk
+    rw [Map.isEmpty_get s.cells (by simpa using hc) k] at this
+    simp at this
+  rename_i ht
+  split at hs
+  · rename_i hh
+    obtain ⟨k, v, hk⟩ := Map.exists_get_of_not_isEmpty s.heap (by simpa using hh)
+    have hhas : s.heap.has k = true := by simp [NSet.has, hk]
+    rcases no k hhas with ⟨x, hx⟩ | ho
+    · rw [Map.isEmpty_get s.table (by simpa using ht) x] at hx
+      cases hx
+    · simp [NSet.has, Map.isEmpty_get s.hostOwned (by simpa using hho) k] at ho
+  · split at hs <;> cases hs
+
 /-- **Safety.** In a state satisfying the invariant no event can trap: whatever the glue and safe
 user code do next, the host's table and the heap accept it. -/
 theorem step_no_trap (s : Sys) (ev : Ev) (hi : Inv s) (w : String) : s.step ev ≠ .trap w := by
-  intro hs
-  obtain ⟨twf, cwf, ce, co, cb, ec, el, ol, un, no, so⟩ := hi
   cases ev with
-  | ownPlus h r =>
-      simp only [Sys.step] at hs
-      split at hs
-      · cases hs
-      cases r <;> simp only at hs
-      · cases hs
-      · split at hs <;> cases hs
-  | borPlus h r k =>
-      simp only [Sys.step] at hs
-      repeat (split at hs; · cases hs)
-      cases hs
-  | callBegin k =>
-      simp only [Sys.step] at hs
-      split at hs <;> cases hs
-  | callEnd k =>
-      simp only [Sys.step] at hs
-      split at hs
-      · cases hs
-      split at hs
-      · cases hs
-      rename_i _ hnt
-      split at hs
-      · rename_i hb
-        have := hasTempOf_of_hasBorrowOf s ⟨twf, cwf, ce, co, cb, ec, el, ol, un, no, so⟩ k hb
-        simp [this] at hnt
-      · cases hs
-  | ownMinus h =>
-      simp only [Sys.step] at hs
-      split at hs
-      · rename_i ex hcell
-        split at hs
-        · cases hs
-        · cases hs
-        · rename_i hne1 hne2
-          have h1 := ce h _ hcell
-          obtain ⟨e, he⟩ := Option.isSome_iff_exists.mp h1
-          cases e with
-          | own r =>
-              cases r with
-              | imp o => exact hne2 o he
-              | exp rep => exact hne1 rep he
-          | borrow r k =>
-              have := (cb h _ r k hcell he).1
-              simp at this
-      · cases hs
-  | lend h =>
-      simp only [Sys.step] at hs
-      split at hs
-      · rename_i c hcell
-        split at hs
-        · cases hs
-        · rename_i hn
-          simp [ce h c hcell] at hn
-      · cases hs
-  | new h rep =>
-      simp only [Sys.step] at hs
-      repeat (split at hs; · cases hs)
-      cases hs
-  | rep h rep =>
-      simp only [Sys.step] at hs
-      split at hs
-      · rename_i hcell
-        split at hs
-        · rename_i r htab
-          split at hs
-          · cases hs
-          · rename_i hr
-            split at hs
-            · cases hs
-            · rename_i hh
-              have : r = rep := by simpa using hr
-              subst this
-              simp [el h r htab] at hh
-        · rename_i hne
-          have h1 := ce h _ hcell
-          obtain ⟨e, he⟩ := Option.isSome_iff_exists.mp h1
-          cases e with
-          | own r =>
-              cases r with
-              | imp o =>
-                  have := (co h _ _ hcell he).2
-                  simp [Res.isExp] at this
-              | exp rep' => exact hne rep' he
-          | borrow r k =>
-              have := (cb h _ r k hcell he).1
-              simp at this
-      · cases hs
-  | drop h =>
-      simp only [Sys.step] at hs
-      split at hs
-      · rename_i c hcell
-        split at hs
-        · rename_i rep htab
-          split at hs
-          · cases hs
-          · rename_i hh
-            simp [el h rep htab] at hh
-        · cases hs
-        · rename_i hn
-          have h1 := ce h c hcell
-          simp [hn] at h1
-      · cases hs
-  | hostDrop rep =>
-      simp only [Sys.step] at hs
-      split at hs
-      · cases hs
-      rename_i ho
-      split at hs
-      · cases hs
-      · rename_i hh
-        have := (ol rep (by simpa using ho)).1
-        simp [this] at hh
-  | use rep =>
-      simp only [Sys.step] at hs
-      split at hs
-      · cases hs
-      rename_i ho
-      split at hs
-      · cases hs
-      · rename_i hh
-        have := (ol rep (by simpa using ho)).1
-        simp [this] at hh
-  | done =>
-      simp only [Sys.step] at hs
-      split at hs
-      · cases hs
-      rename_i hc
-      split at hs
-      · cases hs
-      rename_i hho
-      split at hs
-      · cases hs
-      split at hs
-      · rename_i ht
-        obtain ⟨k, v, hk⟩ := Map.exists_get_of_not_isEmpty s.table (by simpa using ht)
-        have := ec k v hk
-        rw [Map.isEmpty_get s.cells (by simpa using hc) k] at this
-        simp at this
-      rename_i ht
-      split at hs
-      · rename_i hh
-        obtain ⟨k, v, hk⟩ := Map.exists_get_of_not_isEmpty s.heap (by simpa using hh)
-        have hhas : s.heap.has k = true := by simp [NSet.has, hk]
-        rcases no k hhas with ⟨x, hx⟩ | ho
-        · rw [Map.isEmpty_get s.table (by simpa using ht) x] at hx
-          cases hx
-        · simp [NSet.has, Map.isEmpty_get s.hostOwned (by simpa using hho) k] at ho
-      · cases hs
+  | ownPlus h r => exact step_no_trap_ownPlus s h r hi w
+  | borPlus h r k => exact step_no_trap_borPlus s h r k hi w
+  | callBegin k => exact step_no_trap_callBegin s k hi w
+  | callEnd k => exact step_no_trap_callEnd s k hi w
+  | ownMinus h => exact step_no_trap_ownMinus s h hi w
+  | lend h => exact step_no_trap_lend s h hi w
+  | mk pid => exact step_no_trap_mk s pid hi w
+  | new h rep pid => exact step_no_trap_new s h rep pid hi w
+  | take h pid => exact step_no_trap_take s h pid hi w
+  | udrop pid => exact step_no_trap_udrop s pid hi w
+  | rep h rep => exact step_no_trap_rep s h rep hi w
+  | drop h dropped => exact step_no_trap_drop s h dropped hi w
+  | hostDrop rep dropped => exact step_no_trap_hostDrop s rep dropped hi w
+  | use rep => exact step_no_trap_use s rep hi w
+  | done => exact step_no_trap_done s hi w
 
 end Witverif.Abi.Resource
